@@ -14,6 +14,7 @@ def build(tier, seed):
     import_pfhedge()
     obs = [o for o in hedging.feature_obligations(seed) + hedging.hedger_obligations(seed, tier) if PROP in o.props] + hedging.c16_obligations(seed, tier)
     obs.extend(functional_frames(seed))
+    obs.extend(functional_history(seed))
     obs.append(canary())
     return {'obligations': obs, 'functions': hedging.FEATURE_FUNCTIONS + hedging.HEDGER_FUNCTIONS + ['pfhedge.nn.functional.pl', 'pfhedge.instruments.derivative.base.BaseDerivative.payoff'],
             'assumptions': [
@@ -133,6 +134,105 @@ def functional_frames(seed):
     obs.append(mkmod('EntropicLoss.forward', lambda pnn: pnn.EntropicLoss(SReal(tm.var('a')))(T2('X'), T1('Z0').sum()), 'input and target are not written'))
     obs.append(mkmod('EntropicRiskMeasure.cash', lambda pnn: pnn.EntropicRiskMeasure(SReal(tm.var('a'))).cash(T2('X')), 'input is not written'))
     obs.append(mkmod('ExpectedShortfall.cash', lambda pnn: pnn.ExpectedShortfall(0.5).cash(T2('X')), 'input is not written'))
+    return obs
+
+
+HISTORY_FN_REPLAY = '''
+import pfhedge.nn.functional as F
+bad = []
+x = T([-0.1, 0.02, 0.05]); m = T([0.03, 0.04, 0.09]); t = T([0.01, 0.2, 0.5]); v = T([0.2, 0.3, 0.25])
+cases = {"bs_european_price": lambda a: F.bs_european_price(a[0], a[2], a[3], strike=1.3), "bs_european_delta": lambda a: F.bs_european_delta(a[0], a[2], a[3]),
+         "bs_european_gamma": lambda a: F.bs_european_gamma(a[0], a[2], a[3], strike=1.3), "bs_european_binary_price": lambda a: F.bs_european_binary_price(a[0], a[2], a[3]),
+         "bs_american_binary_price": lambda a: F.bs_american_binary_price(a[0] - 0.2, a[1] - 0.1, a[2], a[3]), "bs_lookback_price": lambda a: F.bs_lookback_price(a[0], a[1], a[2], a[3], strike=1.3),
+         "entropic_risk_measure": lambda a: F.entropic_risk_measure(a[0], a=2.0), "expected_shortfall": lambda a: F.expected_shortfall(a[0], 0.5), "d1": lambda a: F.d1(a[0], a[2], a[3]), "d2": lambda a: F.d2(a[0], a[2], a[3])}
+for name, fn in cases.items():
+    a = [x.clone(), m.clone(), t.clone(), v.clone()]
+    fn(a)
+    a[2].fill_(1.0); a[3].mul_(2.0); a[0].add_(0.01); a[1].add_(0.01)          # the caller updates its own tensors in place and evaluates again
+    got = fn(a)
+    ref = fn([z.clone() for z in a])
+    if not torch.allclose(got, ref, atol=1e-12, equal_nan=True): bad.append((name, got.tolist(), ref.tolist()))
+result = {"got": [str(b) for b in bad][:8], "ref": []}
+'''
+
+
+def _replay_history_fn():
+    from pfv.framework import real_exec
+    r = real_exec(HISTORY_FN_REPLAY, {}, timeout=300)
+    ok = r.get('ok') and r['result']['got'] == []
+    return {'real': r, 'confirmed': not ok, 'note': 'replay: each function evaluated, its argument tensors updated in place by the caller, evaluated again on the same objects and compared with the evaluation on copies'}
+
+
+def functional_history(seed):
+    """no dependence on call history for the functional forms: f(args); the caller updates the SAME tensor objects in place;
+    f(args) again must be f of the current values (nothing remembered by object identity or in module-level state)."""
+    import time
+    import torch
+    from pfv import terms as tm
+    from pfv import fc
+    from pfv.framework import Obligation, Verdict
+    from pfv.proxies import explore, SReal, Unsupported
+    H = hedging
+    obs = []
+    N = H.N
+
+    def mk(fname, names, call, positive=(), order=()):
+        def check():
+            t0 = time.time()
+            import pfhedge.nn.functional as F
+            from pfv.torchlib.tensor import Tensor
+
+            def run(c):
+                args = [Tensor.input(nm, (N,), torch.float64) for nm in names]
+                i_ = c.fresh('hi', 'I')
+                for nm in positive:
+                    c.assume(tm.forall(i_, tm.IZERO, N, tm.gt(tm.sel(nm, i_), tm.ZERO)))
+                for (lo_, hi_) in order:
+                    c.assume(tm.forall(i_, tm.IZERO, N, tm.le(tm.sel(lo_, i_), tm.sel(hi_, i_))))
+                call(F, *args)
+                for a in args:
+                    a.mul_(2.0)                       # the caller's own in-place update between the two evaluations
+                again = call(F, *args)
+                fresh = [Tensor.fresh(lambda idx, nm=nm: tm.mul(tm.const(2.0), tm.sel(nm, idx[0])), (N,), torch.float64) for nm in names]
+                return again, call(F, *fresh)
+            try:
+                paths = explore(run, H.DIMS, max_paths=16)
+            except Unsupported as e:
+                return Verdict('unknown', 'engine', time.time() - t0, 'out of reach: %s' % e)
+            n = tm.var('n', 'I')
+            nvc = 0
+            for p in paths:
+                if p.outcome() != 'returns':
+                    if p.outcome().startswith('raises:ValueError'):
+                        continue                      # the validity checks of the Black-Scholes functions on a path with negative t / v
+                    return Verdict('unknown', 'engine', time.time() - t0, str((p.outcome(), str(p.exception)[:200], p.traceback[-300:])))
+                a, b = p.result
+                idx = (n,) if len(a._shape) == 1 else ()
+                r = fc.prove_eq(p.facts(H.DIMS) + [tm.le(tm.IZERO, n), tm.lt(n, N)], a.at(idx), b.at(idx), timeout_ms=20000)
+                nvc += 1
+                if r.status != 'unsat':
+                    rp = _replay_history_fn()
+                    return Verdict('refuted' if (r.status == 'sat' or rp.get('confirmed')) else 'unknown', r.backend, time.time() - t0,
+                                   '%s evaluated again after the caller updated its tensors in place: %s; on fresh tensors with the same values: %s' % (fname, tm.show(a.at(idx))[:200], tm.show(b.at(idx))[:200]),
+                                   witness={'again': tm.show(a.at(idx))[:300], 'fresh': tm.show(b.at(idx))[:300]}, replay=rp)
+            if not nvc:
+                return Verdict('unknown', 'engine', time.time() - t0, 'no returning path')
+            return Verdict('proved', 'z3', time.time() - t0, '%d VCs' % nvc, sample={'claim': '%s: second evaluation on the same (updated) tensor objects == evaluation on fresh tensors' % fname})
+        return Obligation('C16/%s/history[arguments updated in place]' % fname, 'post', 'pfhedge.nn.functional.' + fname.split('[')[0], check, [PROP],
+                          clause='%s called twice on the same tensor objects, updated in place by the caller in between, returns the value for the current contents' % fname)
+    K = SReal(H.K)
+    pos = ('TT', 'VV')
+    obs.append(mk('d1', ('X', 'TT', 'VV'), lambda F, x, t, v: F.d1(x, t, v), pos))
+    obs.append(mk('d2', ('X', 'TT', 'VV'), lambda F, x, t, v: F.d2(x, t, v), pos))
+    for bsf in ('bs_european_price', 'bs_european_delta', 'bs_european_gamma', 'bs_european_vega', 'bs_european_theta', 'bs_european_binary_price', 'bs_european_binary_delta'):
+        kw = {'strike': K} if bsf.split('_')[-1] in ('gamma', 'vega', 'theta') or bsf == 'bs_european_price' else {}
+        obs.append(mk(bsf, ('X', 'TT', 'VV'), lambda F, x, t, v, bsf=bsf, kw=kw: getattr(F, bsf)(x, t, v, **kw), pos))
+    for bsf in ('bs_american_binary_price', 'bs_american_binary_delta', 'bs_lookback_price'):
+        kw = {} if bsf == 'bs_american_binary_price' else {'strike': K}
+        obs.append(mk(bsf, ('X', 'MM', 'TT', 'VV'), lambda F, x, m, t, v, bsf=bsf, kw=kw: getattr(F, bsf)(x, m, t, v, **kw), pos, order=(('X', 'MM'),)))
+    obs.append(mk('entropic_risk_measure', ('X',), lambda F, x: F.entropic_risk_measure(x, a=SReal(tm.var('a')))))
+    obs.append(mk('expected_shortfall', ('X',), lambda F, x: F.expected_shortfall(x, 0.5)))
+    obs.append(mk('exp_utility', ('X',), lambda F, x: F.exp_utility(x, a=SReal(tm.var('a')))))
     return obs
 
 
